@@ -47,7 +47,7 @@ impl Tier {
 }
 
 pub fn wall_cap(tier: Tier) -> Duration {
-    let default = if tier == Tier::Quick { 90 } else { 900 };
+    let default = if tier == Tier::Quick { 90 } else { 3600 };
     Duration::from_secs(std::env::var("VERIF_WALL_CAP").ok().and_then(|s| s.parse().ok()).unwrap_or(default))
 }
 
@@ -314,6 +314,9 @@ fn check_main(id: &str, tier: Tier) -> i32 {
         tier.name(), c.executions, c.states, c.transitions, distinct, out.cells_done, out.cells_total, new_v.len(), known_hits.len(), t0.elapsed().as_secs_f64(),
         if complete { "" } else { " (NOT exhaustive: cap or error)" }
     );
+    if let Some(n) = c.extra.get("unreproduced_anomalies").and_then(|x| x.as_u64()) {
+        println!("NOTE: {n} anomalous observation(s) over real sockets did not recur when the same cell was run again and are not reported as violations (see unreproduced_* in the evidence): {}", c.extra.get("unreproduced_example").and_then(|x| x.as_str()).unwrap_or(""));
+    }
     if !new_v.is_empty() {
         return 1;
     }
